@@ -160,6 +160,8 @@ def run(tier, seed):
     blines, bmeta = [], []
     for bad in (b"\xc3", b"\xe2\x82", b"\xf0\x9f\xa4", b"\xff", b"\x80", b"\xc0\xaf", b"\xed\xa0\x80"):
         for where, text in (("comment-eof", b"@db 1\n; tail " + bad), ("comment-mid", b"@db 1 ; c " + bad + b"\n@db 2\n"), ("string", b'@db "a' + bad + b'"\n'),
+                            ("after-wide-string", '@db "hé🤠llo", '.encode() + bad + b" 1\n"), ("after-wide-comment", "@db 2 ; é€ ".encode() + bad + b"\n"),
+                            ("offset2", b"ab" + bad), ("offset3", b"abc" + bad + b"\n"), ("second-line", "@db \"ß\"\nxy".encode() + bad),
                             ("statement-eof", b"@db 1\n" + bad), ("char", b"@db 'x" + bad + b"'\n"), ("label", b"la" + bad + b"b:\n")):
             for in_inc in (False, True):
                 for chunks in ("", "@c1", "@c2,1"):
@@ -168,10 +170,27 @@ def run(tier, seed):
                         fsm["/i.asm"] = text
                     cid = f"b{len(blines)}"
                     blines.append(f"{cid}\tasm\t6502\t/\t/m.asm\t-\t" + ";".join(f"{q}={e.hex()}{chunks}" for q, e in fsm.items()))
-                    bmeta.append((cid, bad, where, in_inc, chunks))
+                    bmeta.append((cid, bad, where, in_inc, chunks, text))
     bimpl = C.run_impl(blines)
-    for cid, bad, where, in_inc, chunks in bmeta:
+    import re as _re
+    for cid, bad, where, in_inc, chunks, text in bmeta:
         r = bimpl.get(cid, ["MISSING"])
+        if r[0] == "ERR":
+            # the diagnostic names the position reached when the bad byte was met: line = 1 + line
+            # breaks before it, column = characters read on that line (shown as 1 when none)
+            try:
+                text.decode("utf-8")
+                k = len(text)
+            except UnicodeDecodeError as ue:
+                k = ue.start
+            pre = text[:k].decode("utf-8")
+            want = (1 + pre.count("\n"), max(1, len(pre.split("\n")[-1])))
+            msg = C.unhexs(r[1]) if len(r) > 1 else ""
+            m = _re.search(r"(?:^|\n)[^\n:]*:(\d+):(\d+):", msg)
+            got = (int(m.group(1)), int(m.group(2))) if m else None
+            if "read error" in msg and got != want:
+                chk.violation(f"asm:notutf8-pos:{where}", f"a source that is not UTF-8 (bytes {bad.hex()} in {where}) is diagnosed at {got}, the offending position is {want}; chunks '{chunks}'",
+                              {"mode": "asm", "bad": bad.hex(), "where": where, "included": in_inc, "chunks": chunks, "source_hex": text.hex(), "got": got, "want": want})
         chk.evaluations += 1
         chk.distinct.add(("notutf8", bad, where, in_inc))
         if r[0] != "ERR":
